@@ -79,14 +79,14 @@ macro_rules! pos {
     ($($name:ident: $text:expr, $line:expr, $mc:expr;)*) => { $(
         #[kani::proof]
         #[kani::unwind(10)]
-        fn $name() { check_pos($text, $line, $mc); }
+        pub(crate) fn $name() { check_pos($text, $line, $mc); }
     )* };
 }
 macro_rules! rng {
     ($($name:ident: $text:expr, $l1:expr, $l2:expr, $mc:expr;)*) => { $(
         #[kani::proof]
         #[kani::unwind(10)]
-        fn $name() { check_range($text, $l1, $l2, $mc); }
+        pub(crate) fn $name() { check_range($text, $l1, $l2, $mc); }
     )* };
 }
 
@@ -123,7 +123,7 @@ rng! {
 /// vacuity twin: must FAIL
 #[kani::proof]
 #[kani::unwind(10)]
-fn c30_twin_must_fail() {
+pub(crate) fn c30_twin_must_fail() {
     let character: u32 = kani::any();
     kani::assume(character <= 3);
     let off = pos_to_offset("ab", Position { line: 0, character });
